@@ -216,7 +216,12 @@ def run_view_cells(rep, counts):
                     elif res.status == "illegal":
                         rep.violation(f"illegal|{key}", f"{key}: emitted VHDL illegal: {res.detail['msg']}", res.detail)
                     elif res.status == "rejected":
+                        # every view expression of the bank is well typed (all 500+ compile on the unmodified tree): a rejection
+                        # means the view lost its root / type / qualifier on the way
                         counts["rejected-keys"] = counts.get("rejected-keys", []) + [key]
+                        vk = key.split("|")[1]
+                        last = vk.rsplit(".", 1)[-1] if "." in vk else "plain"
+                        rep.violation(f"view-rejected|{key.split('|')[0]}|{last.split('(')[0].split('[')[0]}", f"{key}: well-typed view expression rejected: {str(res.detail)[:160]}", {"detail": str(res.detail), "body": res.cell.body})
                     elif res.status != "vacuous":
                         rep.inconclusive_query(f"{key}: {res.detail}")
         return len(rd) + len(wr) + len(wr2)
